@@ -461,6 +461,12 @@ class World:
         content = b"OTHERFILE:" + self.new_content(1, 10)
         st, node = self.run(g.nodemaker.create_mutable_file(MutableData(content), version=ver))
         assert st == "ok"
+        # the client reads the other file once (as a long-running gateway would): whatever the process remembers
+        # about that file's verified signatures / keys must not make its shares acceptable in OUR file's slot
+        st2, got = self.run(node.download_best_version())
+        assert st2 == "ok" and got == content
+        st2, got = self.run(g.make_nodemaker().create_from_cap(node.get_readonly_uri()).download_best_version())
+        assert st2 == "ok" and got == content
         si2 = node.get_storage_index()
         shares = {}
         for sname, dd in g.shares(si2).items():
@@ -883,6 +889,36 @@ def scen_c14(g, fg, rng, idx, thorough):
     return w.trace("c14")
 
 
+def scen_c14_late(g, fg, rng, idx, thorough):
+    """k=1, N=4 on 6 servers: the older version sits on the servers that come first in the permuted order, the
+    newest version only on the last ones.  A shallow MODE_READ survey (it stops after k+epsilon shares) never
+    reaches the newest version, the checker's and repairer's full surveys do: whatever repair does afterwards, the
+    newest contents must survive."""
+    w = new_world(g, fg, rng, 2, k=1, n=4)
+    newest = len(w.vers)
+    w.wipe()
+    order = list(w.order)
+    nold = rng.choice([3, 4])
+    for i in range(nold):
+        w.put(order[i], i % w.n, newest - 1, how="old_first")
+    late = order[nold:]
+    for j, s in enumerate(late[:rng.choice([1, 2])]):
+        w.put(s, (nold + j) % w.n, newest, how="newest_last")
+    w.set_up([])
+    w.ev_layout()
+    kind = rng.choice(["w", "rw"])
+    cr = w.op_check(kind, False)
+    if cr is not None:
+        res = w.op_repair(kind, False, cr)
+        if res == "mustforce":
+            cr2 = w.op_check(kind, False)
+            if cr2 is not None:
+                w.op_repair(kind, True, cr2)
+    w.op_read(rng.choice(["ro", "rw"]))
+    w.set_up([])
+    return w.trace("c14")
+
+
 def ops_c14(w, rng):
     kind = rng.choice(["w", "rw"])
     w.op_check(kind, False)
@@ -959,9 +995,16 @@ def main():
     for i in range(a.n):
         rng = random.Random(rng0.randrange(10 ** 9))
         ns = a.servers or (rng.choice([4, 4, 5]) if a.family != "C11" else rng.choice([5, 6, 6, 7]))
+        late = cases is None and a.family == "C14" and rng.random() < 0.15
+        if late:
+            ns = "late"
         if ns not in grids:
-            g = Grid(os.path.join(work, "g%d" % ns), num_servers=ns, k=2, n=3, happy=1, seed=a.seed)
-            fg = Grid(os.path.join(work, "f%d" % ns), num_servers=ns, k=2, n=3, happy=1, seed=a.seed)
+            if late:
+                g = Grid(os.path.join(work, "glate"), num_servers=6, k=1, n=4, happy=1, seed=a.seed)
+                fg = Grid(os.path.join(work, "flate"), num_servers=6, k=1, n=4, happy=1, seed=a.seed)
+            else:
+                g = Grid(os.path.join(work, "g%d" % ns), num_servers=ns, k=2, n=3, happy=1, seed=a.seed)
+                fg = Grid(os.path.join(work, "f%d" % ns), num_servers=ns, k=2, n=3, happy=1, seed=a.seed)
             grids[ns] = (g, fg)
         g, fg = grids[ns]
         g.keypool.i = rng.randrange(len(g.keypool.ders))
@@ -972,7 +1015,7 @@ def main():
         if cases is not None:
             tr = scen_gen(g, fg, rng, cases[i], a.family)
         else:
-            tr = SCENS[a.family](g, fg, rng, i, thorough)
+            tr = scen_c14_late(g, fg, rng, i, thorough) if late else SCENS[a.family](g, fg, rng, i, thorough)
         tr["consts"]["idx"] = i
         traces.append(tr)
         # forget this file
